@@ -720,6 +720,32 @@ def stage_accessor_refusals(ctx: Ctx):
                     d = reparse_diffs(root)
                     if d:
                         ctx.violation('accepted-inconsistent|put_docstr', 'put_docstr() accepted a value and left a tree that differs from the parse of its source', {**rec, 'after_src': root.src, 'diffs': d[:3]})
+    # a tree put into itself: the root as code for its own replacement or for one of its own lists / nodes
+    for src in ['a = [1, 2, 3]\nb = 2\n', 'def f():\n    return g(x)\n']:
+        for what, do in [('root.replace(root)', lambda r: r.replace(r)), ('root.body.append(root)', lambda r: r.body.append(r)), ('root.body[0].replace(root)', lambda r: r.body[0].replace(r)),
+                         ('root.put_slice(root, 0, 1, "body")', lambda r: r.put_slice(r, 0, 1, 'body')), ('root.body[0] = root', lambda r: r.body.__setitem__(0, r))]:
+            root = fst.FST(src, 'exec')
+            before = (root.src, ast.dump(root.a, include_attributes=True))
+            try:
+                do(root)
+                err = None
+            except Exception as e:
+                err = e
+            ctx.tick(('circular', src, what), 'accessor-refusal:circular')
+            try:
+                after = (root.src, ast.dump(root.a, include_attributes=True))
+                d = reparse_diffs(root)
+                if not d and not root.verify(raise_=False):
+                    d = ['verify() fails: the links between the tree and its nodes are broken']
+                if not d:
+                    root.body[0].replace('still_editable = 1')
+                    d = reparse_diffs(root)
+            except Exception as e:
+                after, d = None, [f'the tree can not be read any more: {e!r}'[:200]]
+            if err is not None and (d or after != before):
+                ctx.violation(f'failed-but-changed|circular-put|{type(err).__name__}', 'a tree put into itself was refused but the tree is changed / destroyed', {'src': src, 'call': what, 'error': repr(err)[:200], 'diffs': (d or [])[:3]})
+            elif err is None and d:
+                ctx.violation('accepted-inconsistent|circular-put', 'a tree put into itself was accepted and left an inconsistent tree', {'src': src, 'call': what, 'diffs': d[:3]})
     for src in ['x = 1  # c\ny = 2\n', 'if a:  # h\n    b  # c\n']:
         for bad, full in [('two\nlines', False), ('no hash', True), (5, False), (b'c', False), ('# a\n# b', True)]:
             root = fst.FST(src, 'exec')
